@@ -5,3 +5,28 @@ From Coq Require Import List Bool.
 From Coq.Strings Require Import Byte.
 From GI Require Import Lib.Bytes Imports.Read.
 Import ListNotations.
+From GI Require Import Imports.ReadFacts.
+
+(* for every byte string the model of ReadImports returns normally: neither the
+   "import reader looping" panic nor fuel exhaustion is reachable *)
+Theorem C18_read_total : forall report input,
+  exists imports out e, read_imports report input = ROk imports out e.
+Proof. exact read_total. Qed.
+Print Assumptions C18_read_total.
+
+(* the bytes returned are a prefix of the input, an optional leading byte-order mark aside *)
+Theorem C18_output_is_prefix : forall report input imports out e,
+  read_imports report input = ROk imports out e ->
+  (exists tl, strip_bom input = out ++ tl)
+  /\ (input = strip_bom input \/ input = bom ++ strip_bom input).
+Proof. exact output_is_prefix. Qed.
+Print Assumptions C18_output_is_prefix.
+
+(* a syntax error that is not reported: the whole input (BOM aside) and a nil error, with the
+   same imports -- or the NUL error when the bytes consumed afterwards contain a NUL *)
+Theorem C18_no_report_whole : forall input imports out,
+  read_imports true input = ROk imports out ESyntax ->
+  read_imports false input = ROk imports (strip_bom input) ENone
+  \/ exists out', read_imports false input = ROk imports out' ENUL.
+Proof. exact no_report_whole. Qed.
+Print Assumptions C18_no_report_whole.
